@@ -32,10 +32,11 @@ OPEN = {
   'reflist_empty_result': 'ReferenceList/Attachments: a conversion that yields an empty list (RecordList([]) from an empty RecordSet, [] from an '
                           'empty iterator) is not stable, the empty list converts to None',
   'blob_identity': 'Blob.do_convert is the identity: a value that is neither bytes nor None nor str comes back unchanged',
+  'alt_text_reconverts': 'the alt-text fallback str(value) of a failed conversion can be a string the same type converts successfully',
 }
 
 
-def classify(mech, tname):
+def classify(mech, tname, value_is_str=None):
   """Map an oracle mechanism to the key of an open finding (by mechanism: type, kind of result, what it turns into)."""
   if mech == 'not_idempotent:ChoiceList:tuple(empty)->None':
     return 'choicelist_empty_tuple'
@@ -44,6 +45,10 @@ def classify(mech, tname):
     return 'reflist_empty_result'
   if mech == 'result_type:Blob':
     return 'blob_identity'
+  if mech.startswith('not_idempotent:') and mech.split(':')[2].startswith('str->') and not mech.endswith('->str') and value_is_str is False:
+    # do_convert raised on a value that is not a string, convert() fell back to str(value) as alt text, and that very
+    # string is something do_convert accepts: the second conversion yields a typed value
+    return 'alt_text_reconverts'
   return mech
 
 
@@ -265,7 +270,7 @@ def make_env():
 
 # --------------------------------------------------------------------------------------------
 def plan(tier, seed):
-  wit = [{'witness': 'choicelist_empty_tuple'}, {'witness': 'reflist_empty_result'}, {'witness': 'blob_identity'}]
+  wit = [{'witness': 'choicelist_empty_tuple'}, {'witness': 'reflist_empty_result'}, {'witness': 'blob_identity'}, {'witness': 'alt_text_reconverts'}]
   if tier == 'quick':
     return wit + [{'kind': 'catalogue'}] + [{'kind': 'random', 'rseed': seed * 100003 + i, 'n': 600} for i in range(6)] + \
            [{'kind': 'insitu', 'hseed': seed * 100003 + 300 + i, 'steps': 40} for i in range(6)]
@@ -284,7 +289,7 @@ def one_case(acc, env, typ, label, value, where):
     for n in set(info['notes']):
       acc.count('note.' + n)
   if bad:
-    mech = classify(bad[0], type(typ).__name__)
+    mech = classify(bad[0], type(typ).__name__, isinstance(value, str))
     report.dedup(acc).violation(mech, '%s().convert: %s' % (tl, bad[1]), {'type': tl, 'value_class': label, 'value': convert_oracle.safe_repr(value, 400), 'where': where})
   if info['kind']:
     acc.count('result.' + info['kind'])
@@ -344,7 +349,7 @@ class ConvertMonitor(object):
     for k, n in d['notes'].items():
       acc.count('note.' + k, n)
     for v in d['violations']:
-      mech = classify(v['mech'], v['type'])
+      mech = classify(v['mech'], v['type'], v.get('value_is_str'))
       if report.dedup(h.acc).admit(mech):
         h.violation(mech, 'in situ %s().convert: %s' % (v['type'], v['msg']), {'bundle': ctx.bundle if ctx else None, 'obs': v})
     for key in d['shapes']:
@@ -395,6 +400,22 @@ def witness_blob_identity(acc):
   r = t.convert(5)
   if r == 5 and not isinstance(r, (bytes, str)):
     report.dedup(acc).violation('blob_identity', 'witness: Blob().convert(5) returns 5: not bytes/None, not an error object, not an alt-text string', {'result': repr(r)})
+
+
+def witness_alt_text_reconverts(acc):
+  import usertypes
+  import objtypes
+  acc.count('witness_runs')
+  t = usertypes.Numeric()
+  r = t.convert(10 ** 400)
+  again = t.convert(r)
+  d = usertypes.Date()
+  r2 = d.convert(objtypes.AltText('2020-01-01'))
+  again2 = d.convert(r2)
+  if (isinstance(r, str) and isinstance(again, float)) or (isinstance(r2, str) and isinstance(again2, float)):
+    report.dedup(acc).violation('alt_text_reconverts', "witness: Numeric().convert(10**400) is the 401-digit string (alt text), and converting that string gives %r; "
+                                "Date().convert(AltText('2020-01-01')) is the string '2020-01-01', and converting that gives %r" % (again, again2),
+                                {'numeric': [repr(r)[:40], repr(again)], 'date': [repr(r2), repr(again2)]})
 
 
 def run_shard(spec, acc):
